@@ -33,7 +33,11 @@ def one(sid, checks, tier):
             if not os.path.exists(os.path.join(VERIF, 'uv', 'props', c.lower() + '.py')):
                 row[c] = ('n/a', '')
                 continue
-            rr = sh('python3 -m uv.main %s --tier %s --no-evidence' % (c, tier), cwd=VERIF, env=env)
+            try:
+                rr = sh('python3 -m uv.main %s --tier %s --no-evidence' % (c, tier), cwd=VERIF, env=env, timeout=2400)
+            except subprocess.TimeoutExpired:
+                row[c] = ('TIMEOUT', '')
+                continue
             lines = rr.stdout.splitlines()
             first = ''
             if rr.returncode == 1:
